@@ -1,6 +1,7 @@
 package main
 
 import (
+	"go/ast"
 	"go/token"
 	"go/types"
 	"strings"
@@ -386,15 +387,28 @@ func c20Blank(c *Ctx) {
 			}
 		}
 	}
-	if taW == nil {
-		c.bad("blank-delegation", relName(ss)+"#refuse", ss.Pos(), "SetSource does not test whether the current inner source is a Watcher")
-	} else {
-		var okV ssa.Value
+	var testI ssa.Instruction
+	var okV ssa.Value
+	if taW != nil {
+		testI = taW
 		for _, r := range *taW.Referrers() {
 			if e, ok := r.(*ssa.Extract); ok && e.Index == 1 {
 				okV = e
 			}
 		}
+	} else {
+		// ... or a helper predicate of the Blank: true only under inner.(Watcher) ok
+		for _, i := range allInstrs(ss) {
+			if ci, ok := i.(*ssa.Call); ok {
+				if h := staticCallee(ci); h != nil && c20WatcherPredicate(h) {
+					testI, okV = ci, ci
+				}
+			}
+		}
+	}
+	if testI == nil {
+		c.bad("blank-delegation", relName(ss)+"#refuse", ss.Pos(), "SetSource does not test whether the current inner source is a Watcher")
+	} else {
 		// from the ok==true successor: returns a non-nil error, no stores to Blank fields, no calls on the new source
 		var succ *ssa.BasicBlock
 		if okV != nil {
@@ -428,14 +442,14 @@ func c20Blank(c *Ctx) {
 				if st, ok := i.(*ssa.Store); ok {
 					if fa, ok := st.Addr.(*ssa.FieldAddr); ok && namedTypeName(fa.X.Type()) == "sourcewrap.Blank" {
 						// no field write may happen on a path that still reaches the test
-						if reachAvoid(ss, st, func(x ssa.Instruction) bool { return x == ssa.Instruction(taW) }, nil) != nil {
+						if reachAvoid(ss, st, func(x ssa.Instruction) bool { return x == testI }, nil) != nil {
 							okRef = false
 						}
 					}
 				}
 			}
 		}
-		c.check(okRef, "blank-delegation", relName(ss)+"#refuse", taW.Pos(), "a watching inner source is never replaced: the test precedes every field write and its true branch only returns an error",
+		c.check(okRef, "blank-delegation", relName(ss)+"#refuse", testI.Pos(), "a watching inner source is never replaced: the test precedes every field write and its true branch only returns an error",
 			"the Watcher test does not precede every write, or its true branch does more than return an error")
 	}
 	// the inner Watch call gets the saved context, type and arguments
@@ -498,6 +512,36 @@ func c20Blank(c *Ctx) {
 				continue
 			}
 			okl := lock != nil && domI(lock, fa)
+			if !okl && lock == nil && f.Signature.Recv() != nil && !ast.IsExported(f.Name()) {
+				// an unexported method without a lock of its own: every call site (all in this package, all
+				// static) is dominated by b.mu.Lock() in its caller
+				callers := 0
+				held := true
+				for _, g := range w.funcsIn("sourcewrap") {
+					for _, cs := range callsToFn(g, f) {
+						callers++
+						var glock *ssa.Call
+						for _, gi := range allInstrs(g) {
+							if ci, ok := gi.(*ssa.Call); ok && calleeFullName(ci) == "(*sync.Mutex).Lock" {
+								if gfa, ok := ci.Call.Args[0].(*ssa.FieldAddr); ok && namedTypeName(gfa.X.Type()) == "sourcewrap.Blank" {
+									glock = ci
+								}
+							}
+						}
+						csi, isInstr := cs.(ssa.Instruction)
+						if glock == nil || !isInstr || !domI(glock, csi) {
+							held = false
+						}
+						if _, isGo := cs.(*ssa.Go); isGo {
+							held = false
+						}
+					}
+				}
+				// the method value must not escape (no other references)
+				if callers > 0 && held && !w.funcValueEscapes(f) {
+					okl = true
+				}
+			}
 			if !okl {
 				// the documented exception: reading b.t for the nil-source error message
 				if fn == "t" {
@@ -582,4 +626,39 @@ func c20ReverseDerefs(c *Ctx, rule string) {
 	if n == 0 {
 		c.bad(rule, relName(rt), rt.Pos(), "ReverseTranslate no longer unpacks its value through unpackValueFields")
 	}
+}
+
+// c20WatcherPredicate: h is a method of Blank returning a bool that is true only when b.inner.(dials.Watcher)
+// succeeded (every return is the assertion's ok result or the constant false).
+func c20WatcherPredicate(h *ssa.Function) bool {
+	h = origin(h)
+	if len(h.Blocks) == 0 || h.Signature.Recv() == nil || h.Signature.Results().Len() != 1 {
+		return false
+	}
+	if namedTypeName(h.Signature.Recv().Type()) != "sourcewrap.Blank" {
+		return false
+	}
+	sawOK := false
+	for _, r := range returnsOf(h) {
+		v := retVals(r)[0]
+		if cst, ok := v.(*ssa.Const); ok && cst.Value != nil {
+			if cst.Value.ExactString() != "false" {
+				return false
+			}
+			continue
+		}
+		ex, ok := v.(*ssa.Extract)
+		if !ok || ex.Index != 1 {
+			return false
+		}
+		ta, ok := ex.Tuple.(*ssa.TypeAssert)
+		if !ok || !ta.CommaOk || namedTypeName(ta.AssertedType) != ".Watcher" {
+			return false
+		}
+		if _, ok := loadOfTypeField(ta.X, "sourcewrap.Blank", "inner"); !ok {
+			return false
+		}
+		sawOK = true
+	}
+	return sawOK
 }
